@@ -10,10 +10,10 @@ import json, os, sys
 
 RECV_DECL = {"ref": "&self", "mut": "&mut self", "own": "self", "pinref": "self: Pin<&Self>", "pinmut": "self: Pin<&mut Self>"}
 ARG_TY = {"none": None, "i64": "i64", "cstruct": "Pt", "ref": "&u64", "mutref": "&mut u64", "slice": "&[u8]",
-          "mutslice": "&mut [u8]", "str": "&str", "opt": "Option<u64>", "optnpo": "Option<&u64>",
+          "mutslice": "&mut [u8]", "str": "&str", "opt": "Option<u64>", "optnpo": "Option<&u64>", "optptr": "Option<*const u8>",
           "result": "Result<u64, u64>", "into": "impl Into<u64>", "callback": "OpaqueCallback<u64>", "iter": "CIterator<u64>"}
 RET_TY = {"unit": None, "i64": "i64", "cstruct": "Pt", "slice": "&[u8]", "mutslice": "&mut [u8]", "str": "&str",
-          "opt": "Option<u64>", "optnpo": "Option<&u64>", "result": "Result<u64, ()>", "resunit": "Result<(), ()>",
+          "opt": "Option<u64>", "optnpo": "Option<&u64>", "optptr": "Option<*const u8>", "result": "Result<u64, ()>", "resunit": "Result<(), ()>",
           "resneg": "Result<u64, NegErr>"}
 
 # callee: compute digest `d` of the received argument, log it (and its address), write through &mut shapes
@@ -28,6 +28,7 @@ ARG_BODY = {
     "str": "let d = a.bytes().map(|b| b as i64).sum::<i64>() + a.len() as i64 * 1000; log(d); log(a.as_ptr() as i64);",
     "opt": "let d = match a { None => -1, Some(v) => (v % 100000) as i64 }; log(d);",
     "optnpo": "let d = match a { None => -1, Some(v) => *v as i64 }; log(d); log(a.map(|v| v as *const u64 as i64).unwrap_or(0));",
+    "optptr": "let d = match a { None => -1, Some(p) => (p as usize % 100003) as i64 }; log(d);",
     "result": "let d = match a { Ok(v) => v as i64, Err(e) => -(e as i64) }; log(d);",
     "into": "let v: u64 = a.into(); let d = v as i64; log(d);",
     "callback": "let mut a = a; let base = (self.st.get() % 50) as u64; let n = (0..3u64).map(|i| base + i).feed_into_mut(&mut a); let d = n as i64; log(d);",
@@ -49,6 +50,7 @@ def ret_expr(ret, recv):
         "str": "{ let this = %s; let n = [0usize, 1, 3, 6][(s2 %% 4) as usize]; log(this.tbuf.as_ptr() as i64 - this as *const Imp as i64); std::str::from_utf8(&this.tbuf[..n]).unwrap() }" % tr,
         "opt": "if s2 % 2 == 0 { Some(s2 as u64) } else { None }",
         "optnpo": "{ let this = %s; if s2 %% 2 == 0 { log(&this.cell as *const u64 as i64 - this as *const Imp as i64); Some(&this.cell) } else { None } }" % tr,
+        "optptr": "if s2 % 2 == 0 { log(1); Some(&self.cell as *const u64 as *const u8) } else { log(0); None }",
         "result": "if s2 % 2 == 0 { Ok(s2 as u64) } else { Err(()) }",
         "resunit": "if s2 % 2 == 0 { Ok(()) } else { Err(()) }",
         "resneg": "if s2 % 2 == 0 { Ok(s2 as u64) } else { Err(NegErr { code: -2 - (s2 % 5) as i32 }) }",
@@ -65,6 +67,7 @@ RET_DIGEST = {
     "str": "let mut rd: Vec<i64> = vec![r.len() as i64, r.as_ptr() as i64 - imp_addr]; rd.extend(r.bytes().map(|b| b as i64)); let str_ptr = r.as_ptr() as i64;",
     "opt": "let rd: Vec<i64> = match r { None => vec![-1], Some(v) => vec![1, v as i64] };",
     "optnpo": "let rd: Vec<i64> = match r { None => vec![-1], Some(v) => vec![1, *v as i64, v as *const u64 as i64 - imp_addr] };",
+    "optptr": "let rd: Vec<i64> = match r { None => vec![-1], Some(p) => vec![1, (!p.is_null()) as i64] };",
     "result": "let rd: Vec<i64> = match r { Ok(v) => vec![0, v as i64], Err(()) => vec![1] };",
     "resunit": "let rd: Vec<i64> = match r { Ok(()) => vec![0], Err(()) => vec![1] };",
     "resneg": "let rd: Vec<i64> = match r { Ok(v) => vec![0, v as i64], Err(e) => vec![1, e.code as i64] };",
@@ -105,6 +108,10 @@ def arg_setup(arg, v):
         val = ["None", "Some(&cellv)"][v]
         return ("let cellv: u64 = 5; let av: Option<&u64> = %s; let sent_d = match av { None => -1, Some(v) => *v as i64 }; let sent_addr = av.map(|v| v as *const u64 as i64).unwrap_or(0);" % val,
                 "av", "let post: Vec<i64> = vec![cellv as i64];")
+    if arg == "optptr":
+        val = ["None", "Some(pbuf.as_ptr())"][v]
+        return ("let pbuf: [u8; 4] = [1, 2, 3, 4]; let av: Option<*const u8> = %s; let sent_d = match av { None => -1, Some(p) => (p as usize %% 100003) as i64 }; let sent_addr = 0i64;" % val,
+                "av", "let post: Vec<i64> = vec![];")
     if arg == "result":
         val = ["Ok(3)", "Err(9)"][v]
         return "let av: Result<u64, u64> = %s; let sent_d = match av { Ok(v) => v as i64, Err(e) => -(e as i64) }; let sent_addr = 0i64;" % val, "av", "let post: Vec<i64> = vec![];"
